@@ -81,6 +81,66 @@ Fixpoint run_ok (st : dstate) (t : list dop) : bool :=
 Definition is_data_op (o : dop) : bool := match o with DPack _ _ | DIndex _ => true | _ => false end.
 Definition is_snap_op (o : dop) : bool := match o with DSnap _ _ => true | _ => false end.
 
+(* ---------- (c) copyTree / CopyBlobs: which blobs a run uploads ---------- *)
+(* Source tree graph: tree id -> (subtree ids, data blob ids of its files).  copyTree walks the trees
+   below a snapshot root with data.StreamTrees; the skip callback consults and extends visitedTrees
+   (shared by all snapshots of the run) BEFORE the tree is loaded; every loaded tree enqueues its own
+   blob and its files' data blobs unless dstRepo.LookupBlobSize knows them (destination index incl.
+   blobs uploaded earlier in this run); CopyBlobs then uploads exactly the enqueued set.  StreamTrees
+   visits concurrently; the sets computed do not depend on the order, the model walks depth-first. *)
+Definition graph := list (N * (list N * list N)).
+
+Fixpoint glookup (g : graph) (t : N) : option (list N * list N) :=
+  match g with
+  | [] => None
+  | (k, v) :: r => if N.eqb t k then Some v else glookup r t
+  end.
+
+(* copyBlobs.Insert for every blob of [bs] the destination does not know *)
+Fixpoint add_missing (dst acc bs : list N) : list N :=
+  match bs with
+  | [] => acc
+  | b :: r => add_missing dst (if orb (memN b dst) (memN b acc) then acc else acc ++ [b]) r
+  end.
+
+Inductive wres := WOk (visited acc : list N) | WErr | WFuel.
+
+Fixpoint walk (g : graph) (dst : list N) (fuel : nat) (work visited acc : list N) : wres :=
+  match fuel with
+  | O => WFuel
+  | S f =>
+      match work with
+      | [] => WOk visited acc
+      | t :: rest =>
+          if memN t visited then walk g dst f rest visited acc
+          else match glookup g t with
+               | None => WErr                          (* LoadTree error: copy aborts *)
+               | Some (subs, datas) =>
+                   walk g dst f (subs ++ rest) (t :: visited) (add_missing dst acc (t :: datas))
+               end
+      end
+  end.
+
+(* one copyTree + CopyBlobs: new visited set, new destination blob set *)
+Definition copy_tree (g : graph) (fuel : nat) (st : list N * list N) (root : N) : option (list N * list N) :=
+  let '(visited, dst) := st in
+  match walk g dst fuel [root] visited [] with
+  | WOk v acc => Some (v, dst ++ acc)
+  | _ => None
+  end.
+
+Fixpoint copy_trees (g : graph) (fuel : nat) (st : list N * list N) (roots : list N) : option (list N * list N) :=
+  match roots with
+  | [] => Some st
+  | r :: rest => match copy_tree g fuel st r with
+                 | Some st' => copy_trees g fuel st' rest
+                 | None => None
+                 end
+  end.
+
+Definition graph_fuel (g : graph) (nroots : nat) : nat :=
+  fold_right (fun e n => (2 + length (fst (snd e)) + n)%nat) (2 + nroots)%nat g.
+
 (* ---------- cases ---------- *)
 Definition snap_eqb (a b : snap) : bool :=
   andb (andb (N.eqb (s_id a) (s_id b)) (option_eqb N.eqb (s_orig a) (s_orig b)))
@@ -94,8 +154,23 @@ Record case := mk {
   c_dst1 : list snap;                (* destination snapshots after the run *)
   c_needs : list (N * list N);       (* tree id -> blobs needed (closure computed on the source) *)
   c_trace2 : list dop;               (* destination modifications of an immediate second run *)
-  c_dst2 : list snap                 (* destination snapshots after the second run *)
+  c_dst2 : list snap;                (* destination snapshots after the second run *)
+  c_graph : graph;                   (* source trees below the chosen snapshots *)
+  c_dstblobs : list N                (* blobs the destination index knew before the run *)
 }.
+
+(* blobs the run uploaded, read off the observed trace *)
+Definition uploaded (t : list dop) : list N :=
+  flat_map (fun o => match o with DPack _ bl => bl | _ => [] end) t.
+Definition subsetN (a b : list N) : bool := forallb (fun x => memN x b) a.
+
+(* model: the blobs copy uploads for the selected snapshots, in order *)
+Definition model_uploaded (c : case) : option (list N) :=
+  let roots := map s_tree (select (c_src c) (c_dst0 c)) in
+  match copy_trees (c_graph c) (graph_fuel (c_graph c) (length roots)) ([], c_dstblobs c) roots with
+  | Some (_, d) => Some (skipn (length (c_dstblobs c)) d)
+  | None => None
+  end.
 
 Definition needs_of (c : case) (tree : N) : list N :=
   match filter (fun e : N * list N => N.eqb (fst e) tree) (c_needs c) with e :: _ => snd e | [] => [] end.
@@ -137,7 +212,11 @@ Definition check_case (c : case) : nat :=
   | O =>
       let news := new_snaps (c_dst0 c) (c_dst1 c) in
       if andb (list_eqb snap_eqb news (zip_copy (map s_id news) (select (c_src c) (c_dst0 c))))
-              (andb (Nat.eqb (length news) (length (select (c_src c) (c_dst0 c)))) (shape_ok (c_trace c)))
+              (andb (andb (Nat.eqb (length news) (length (select (c_src c) (c_dst0 c)))) (shape_ok (c_trace c)))
+                    (match model_uploaded c with
+                     | Some up => andb (subsetN up (uploaded (c_trace c))) (subsetN (uploaded (c_trace c)) up)
+                     | None => false
+                     end))
       then 0 else 1
   | n => n
   end.
